@@ -423,6 +423,14 @@ func (e *SpecEnv) evalBinary(x *SBinary) Val {
 			}
 		}
 	}
+	if (x.Op == "==" || x.Op == "!=") && a.T != nil && isFloat(a.T) {
+		// in specifications == on floats is identity of the value (bit for bit), not IEEE comparison
+		t := fmt.Sprintf("(= %s %s)", a.S, b.S)
+		if x.Op == "!=" {
+			t = not(t)
+		}
+		return Val{T: boolT, S: t}
+	}
 	if (x.Op == "==" || x.Op == "!=") && a.T != nil {
 		if _, ok := a.T.Underlying().(*types.Slice); ok {
 			t := fmt.Sprintf("(= %s %s)", a.S, b.S)
